@@ -54,6 +54,7 @@ for k in sorted(checks):
       'replay_cmd_template':f'bin/verif replay {k} {{path}}','engine':'verif-harness',
       'level_claimed':{'category':c['level'],'text':c['text'],'design_ref':c['ref']},'level_note':c['note'],'technique':c['tech']})
 json.dump(m,open(V+'/MANIFEST.json','w'),indent=1)
+sys.path.insert(0,"/opt/veriftools/pyvenv/lib/python3.11/site-packages")
 import jsonschema
 jsonschema.validate(m,json.load(open('/root/.vp/MANIFEST.schema.json')))
 print('MANIFEST ok:',len(m['checks']),'checks,',len(m['not_applicable']),'not applicable')
